@@ -7,6 +7,7 @@ from ..evaluator import analyse, Config
 from ..procmodel import make_config, permeance_summary, oracle, PM, KG
 from ..symeval import val_key
 from ..values import *
+from ..symeval import called_from, in_function
 from ..repo import AnalysisError, FuncInfo
 
 EXPL = ("D1: the driving-force function is evaluated under the four None-ness combinations of the two permeate parameters; "
@@ -175,7 +176,7 @@ def _counter_names(lp):
 
 def check_solver_path(ck, repo, df, sv, o, given):
     fq = sv.qualname
-    wl = [l for l in o.loops if l.kind == "while" and l.func is sv]
+    wl = [l for l in o.loops if l.kind == "while" and in_function(l.func, sv)]
     if wl and wl[0].entered is False:
         # the loop is skipped only when the start distance is already below the precision, i.e. for a
         # precision above the start value of the distance (1): outside the property's domain (<= 1e-3)
@@ -189,13 +190,13 @@ def check_solver_path(ck, repo, df, sv, o, given):
         ck.ob("D3", fq, "solver returns under an admissible single permeate condition", o.exc.where or sv.loc(), False,
               "raises %s: %s" % (o.exc.exc_type, o.exc.msg))
         return
-    loops = [l for l in o.loops if l.kind == "while" and l.func is sv]
+    loops = [l for l in o.loops if l.kind == "while" and in_function(l.func, sv)]
     ck.ob("D3", fq, "exactly one fixed-point loop", sv.loc(), len(loops) == 1, "found %d while loops" % len(loops))
     if len(loops) != 1:
         return
     lp = loops[0]
     where = sv.loc(lp.node)
-    calls = [c for c in o.calls if isinstance(c.callee, FuncInfo) and c.callee.qualname == DF and c.caller.func is sv]
+    calls = [c for c in o.calls if isinstance(c.callee, FuncInfo) and c.callee.qualname == DF and called_from(c, sv)]
     fake = _FakePM(repo, sv, o)
     prec = Rat.sym("precision")
     # own parameters
